@@ -22,7 +22,7 @@ ASSUMPTIONS = [
 NSHARDS = {"quick": 32, "thorough": 64}
 BUDGET_S = {"quick": 240, "thorough": 2400}
 MIN_HITS = {
-    'quick': {"variant": 7097, "expect_accept": 2127, "expect_reject": 4905, "mutation_still_valid": 1935, "family_p2pk": 47, "family_p2pkh": 47, "family_multisig": 97, "lib_signed": 79, "with_separator": 141, "reversed_digest": 192, "legacy_flag": 96, "forkid_flag": 96},
+    'quick': {"variant": 7409, "expect_accept": 2439, "expect_reject": 4905, "mutation_still_valid": 2247, "family_p2pk": 47, "family_p2pkh": 47, "family_multisig": 97, "lib_signed": 79, "with_separator": 141, "reversed_digest": 192, "legacy_flag": 96, "forkid_flag": 96},
     'thorough': {"variant": 354592, "expect_accept": 106955, "expect_reject": 244564, "mutation_still_valid": 97355, "family_multisig": 4795, "lib_signed": 4232, "with_separator": 6859, "reversed_digest": 9600},
 }
 FLAGS = [0x01, 0x02, 0x03, 0x81, 0x82, 0x83, 0x41, 0x42, 0x43, 0xC1, 0xC2, 0xC3]
